@@ -12,7 +12,7 @@ summary contains a panic site is a *site*; a site must be discharged by
             in-range slice indexing),
   D-linked  a reviewed numeric argument with machine-checked side conditions (panics_table.py),
 or it is reported with the path that reaches it."""
-import math, struct
+import math, re, struct
 from . import vg, facts as F, helpers as H, idioms
 from .terms import mk, tag, all_nodes
 
@@ -53,8 +53,11 @@ class Facts(object):
         self.known = known
         self.ptypes = ptypes
         self.memo = {}
+        self.notin = {}         # switch operand -> values excluded by the default arm
         for c, v in list(known.items()):
             if type(v) is tuple:
+                if v and v[0] == "notin":
+                    self.notin[c] = set(v[1])
                 continue
             self.add(c, bool(v)) if tag(c) in ("cmp", "call", "not") else None
 
@@ -149,6 +152,30 @@ class Facts(object):
             if t[1] in vg.INT_BITS:
                 v = vg.to_signed(t[1], t[2]); return Iv(v, v)
             return Iv(t[2], t[2])
+        if tg == "index" and tag(t[1]) == "carray":
+            # an element of a constant integer table at an unknown index: between the smallest and the largest entry
+            m = re.match(r"^\[(\w+); (\d+)\]$", t[1][1])
+            if m and m.group(1) in vg.INT_BITS:
+                ety, n = m.group(1), int(m.group(2))
+                raw = bytes.fromhex(t[1][2]); sz = len(raw) // max(n, 1)
+                vals = [vg.to_signed(ety, int.from_bytes(raw[i * sz:(i + 1) * sz], "little")) for i in range(n)]
+                if vals:
+                    return Iv(min(vals), max(vals))
+        if tg == "call" and t[1] == "core::num::<impl i32>::unsigned_abs" and len(t) == 3:
+            inner = self.bounds(t[2])
+            lo = 0 if inner.lo <= 0 <= inner.hi else min(abs(inner.lo), abs(inner.hi))
+            ex = self.notin.get(t[2])
+            if ex:
+                exs = {vg.to_signed("i32", v & 0xffffffff) for v in ex}
+                k = 0
+                while k in exs and -k in exs:
+                    k += 1
+                lo = max(lo, k)
+            return Iv(lo, max(abs(inner.lo), abs(inner.hi)))
+        if tg == "call" and re.match(r"^core::convert::num::<impl core::convert::From<bool> for \w+>::from$", t[1]) and len(t) == 3:
+            return Iv(0, 1)
+        if tg == "cast" and t[1] == "IntToInt" and t[2] == "bool":
+            return Iv(0, 1)
         if tg in ("param", "havoc"):
             ty = self._ity(t)
             if ty in vg.INT_BITS:
@@ -321,6 +348,16 @@ class Facts(object):
         op, ty, a, b = c[1], c[2], c[3], c[4]
         if ty == "bool":
             return None
+        # the same operands already compared on this path (a == b known false decides a != b, and so on)
+        NEG = {"eq": "ne", "ne": "eq", "lt": "ge", "ge": "lt", "gt": "le", "le": "gt"}
+        for (x, y, o) in ((a, b, op), (b, a, {"lt": "gt", "gt": "lt", "le": "ge", "ge": "le", "eq": "eq", "ne": "ne"}[op])):
+            same = self.known.get(mk("cmp", o, ty, x, y))
+            if same is not None and type(same) is not tuple:
+                return bool(same)
+            if o in ("eq", "ne") or ty not in ("f64", "f32"):
+                opp = self.known.get(mk("cmp", NEG[o], ty, x, y))      # for floats only eq/ne are complementary (NaN)
+                if opp is not None and type(opp) is not tuple:
+                    return not bool(opp)
         ia = self.bounds(a); ib = self.bounds(b)
         if ia.empty() or ib.empty():
             return None
@@ -555,4 +592,6 @@ def analyse(facts, body, linked=None, keep=()):
     pol.has_loop_or_recursion = lambda callee: False
     ex = vg.Exec(facts, pol, max_nodes=60000, loops="havoc", hooks=hooks)
     tree = ex.run_body(body)
+    analyse.last_covered = set(ex.covered)
     return hooks.sites, tree
+analyse.last_covered = set()
